@@ -16,6 +16,8 @@ def klass(name):
         return "int"
     if name in ("nan", "inf"):
         return "float"
+    if name == "Brepr":
+        return "unprintable"
     if name in ("R12", "M12"):
         return "lazy"
     if name in ("S1", "S2", "S12", "Sf", "Sg"):
